@@ -271,6 +271,15 @@ pub fn teval(args: &[String]) {
             let c = s.x0 + (s.xend - s.x0) * rng.range(0.05, 0.95);
             p.events = vec![EventSpec { a: 1.0, b: vec![0.0; p.n()], c, dir: 0, terminal: Some(1) }];
             branch = "terminal";
+            // every other terminal case: only the last one or two requested times before the event are asked for (possibly
+            // repeated), so that the step that contains the event has a single pending entry
+            if case % 2 == 1 {
+                let mut before: Vec<f64> = pts.iter().cloned().filter(|t| (t - c) * dirn < 0.0).collect();
+                let keep = 1 + rng.below(2);
+                if before.len() > keep { before = before[before.len() - keep..].to_vec(); }
+                if rng.chance(0.4) { if let Some(l) = before.last().cloned() { before.push(l); } }
+                if !before.is_empty() { pts = before; o.t_eval = Some(pts.clone()); branch = "terminal-tail"; }
+            }
         }
         let mut od = Options::builder().method(s.method).rtol(s.rtol).atol(s.atol).dense_output(true).build();
         od.t_eval = o.t_eval.clone();
@@ -281,7 +290,7 @@ pub fn teval(args: &[String]) {
         let mut key = "";
         if sol.t != sold.t || sol.y != sold.y { why = "reported values depend on dense_output".into(); key = "c05-dense-dependence"; }
         if sol.t.len() != sol.y.len() { why = "t and y have different lengths".into(); key = "c05-shape"; }
-        if branch == "terminal" { stop_at = sol.t_events[0].first().cloned(); }
+        if branch.starts_with("terminal") { stop_at = sol.t_events[0].first().cloned(); }
         if why.is_empty() {
             match (sol.status, stop_at) {
                 (Status::Success, _) => {
@@ -294,9 +303,9 @@ pub fn teval(args: &[String]) {
                     let want_max: Vec<f64> = pts.iter().cloned().filter(|t| (t - xs) * dirn <= 1e-12).collect();
                     let mut got = sol.t.clone();
                     // the terminal event point itself is the only permitted extra sample, as the final entry
-                    if branch == "terminal" && got.last() == Some(&xs) { got.pop(); if want.last() == Some(&xs) && got.len() + 1 == want.len() { got.push(xs); } }
+                    if branch.starts_with("terminal") && got.last() == Some(&xs) { got.pop(); if want.last() == Some(&xs) && got.len() + 1 == want.len() { got.push(xs); } }
                     let lenient_ok = got.len() >= want.len() && got.len() <= want_max.len() && got[..] == want_max[..got.len()];
-                    if !lenient_ok { why = format!("stopped at {} ({}): reported {:?}, requested times not beyond the stop {:?}", xs, branch, sol.t, want); key = if branch == "terminal" { "c05-early-stop-terminal" } else { "c05-early-stop-budget" }; }
+                    if !lenient_ok { why = format!("stopped at {} ({}): reported {:?}, requested times not beyond the stop {:?}", xs, branch, sol.t, want); key = if branch.starts_with("terminal") { "c05-early-stop-terminal" } else { "c05-early-stop-budget" }; }
                 }
                 _ => {}
             }
